@@ -65,8 +65,8 @@ HPU = unw(2, 2, 2, 1, 'hp')
 UNIT = dict(
   title='hazard_pointer / hazard_eras reclaim side: add_retired_node, scan, gather, reclaim_nodes, ~thread_data, retire trigger (C01 reclaim side, C02, C17)',
   properties=['C01', 'C02', 'C17'],
-  drops='templates; a control block is struct tcb = entry part + K slot words (+ total_number_of_hps / hp_block for the dynamic strategy, whose extra '
-        'blocks are only covered for the active-slot counter, not for gathering); marked_ptr<void*,1> slot words are uintptr_t with the mark()/get() contract '
+  drops='templates; a control block is struct tcb = entry part + K slot words (+ total_number_of_hps / hp_block for the dynamic strategy; a dynamic block is a header struct '
+        'immediately followed by its slots, the template gather over T is lowered once for T = control block and once for T = block); marked_ptr<void*,1> slot words are uintptr_t with the mark()/get() contract '
         'of unit mp; node addresses are ghost words (distinct, non-null, mark bit clear), so ordering/equality of pointers is that of arbitrary words; nodes '
         'and entries are separate objects, WLOG linked in pool order (addresses of nodes/entries are never compared by the code except through the ghost words); '
         'std::for_each is rewritten to the loop that defines it (unit-local rule for_each_rule; the loop uses the real lowered iterator operators). '
@@ -81,7 +81,7 @@ UNIT = dict(
                'std::unique removes consecutive duplicates and returns the new end; vector::erase(last,end) truncates; vector::reserve/push_back do not throw',
                'marked_ptr<void*,1>: mark() = top bit, get() = word without the top bit (unit mp)',
                'delete_self contract (unit rlist: deletes exactly this node with its own deleter)',
-               'dynamic_hp/he_thread_control_block (chained extra blocks, recursive gather) not under contract'],
+               'dynamic strategy: the layout "slots start at this + 1" of a dynamic block is the one established by allocate_new_hazard_pointer_block / _eras_block (header immediately followed by the slots)'],
   consts=[dict(name='XV_IS_ACTIVE_DEFAULT_ORDER', file=TBL, regex=r'bool is_active\(std::memory_order memory_order = (std::memory_order_\w+)\) const', subst=[(r'std::memory_order_', 'mo_')]),
           dict(name='XV_ITER_DEFAULT_PTR', file=TBL, regex=r'class iterator \{\s*T\* ptr = (\w+);', subst=[(r'nullptr', '0')])],
   sources=[
@@ -231,10 +231,11 @@ UNIT = dict(
     dict(id='hp_dyn_gather_tcb', file=HPI, sig=r'template <typename T>\s*static void gather_protected_pointers\(const T& block,\s*std::vector<const detail::deletable_object\*>& protected_ptrs\)',
          c_sig='static void hp_dyn_gather_tcb(const struct tcb* block_p, struct vec* protected_ptrs)',
          subst=[(r'base::gather_protected_pointers\(', 'hp_gather_range(', 'base_gather'), (r'\bblock\b', '(*block_p)', 'block_ref')],
-         methods={'begin': 'HP_TCB_begin', 'end': 'HP_TCB_end', 'next_block': 'HP_TCB_next_block'}, calls={'gather_protected_pointers': 'HP_DYN_GATHER_BLK'},
+         methods={'begin': {'(*block_p)': 'HP_TCB_begin', '*': 'HP_BLK_begin'}, 'end': {'(*block_p)': 'HP_TCB_end', '*': 'HP_BLK_end'}, 'next_block': {'(*block_p)': 'HP_TCB_next_block', '*': 'HP_BLK_next_block'}}, calls={'gather_protected_pointers': 'HP_DYN_GATHER_BLK'},
          must_fire={'subst:base_gather': 1, 'subst:block_ref': 3, 'call:gather_protected_pointers': 1, 'method:next_block': 1}),
     dict(id='hp_dyn_tcb_gather', file=HPI, sig=r'void gather_protected_pointers\(std::vector<const detail::deletable_object\*>& protected_ptrs\) const', which=1,
-         c_sig='static void hp_dyn_tcb_gather(const struct tcb* self, struct vec* protected_ptrs)', calls={'gather_protected_pointers': 'HP_DYN_GATHER_TCB'},
+         c_sig='static void hp_dyn_tcb_gather(const struct tcb* self, struct vec* protected_ptrs)', subst=[(r'base::gather_protected_pointers\(', 'hp_gather_range(', 'base_gather')],
+         methods={'begin': 'HP_TCB_begin', 'end': 'HP_TCB_end'}, calls={'gather_protected_pointers': 'HP_DYN_GATHER_TCB'},
          must_fire={'call:gather_protected_pointers': 1}),
     dict(id='he_blk_begin', file=HEI, sig=r'const hazard_era\* begin\(\) const', which=1, c_sig='static const struct slot* he_blk_begin(const struct hpblock* self)',
          types={'const hazard_era*': 'const struct slot*'}, must_fire={'cast': 1}),
@@ -252,10 +253,11 @@ UNIT = dict(
     dict(id='he_dyn_gather_tcb', file=HEI, sig=r'template <typename T>\s*static void gather_protected_eras\(const T& block, std::vector<era_t>& protected_eras\)',
          c_sig='static void he_dyn_gather_tcb(const struct tcb* block_p, struct vec* protected_eras)',
          subst=[(r'base::gather_protected_eras\(', 'he_gather_range(', 'base_gather'), (r'\bblock\b', '(*block_p)', 'block_ref')],
-         methods={'begin': 'HE_TCB_begin', 'end': 'HE_TCB_end', 'next_block': 'HE_TCB_next_block'}, calls={'gather_protected_eras': 'HE_DYN_GATHER_BLK'},
+         methods={'begin': {'(*block_p)': 'HE_TCB_begin', '*': 'HE_BLK_begin'}, 'end': {'(*block_p)': 'HE_TCB_end', '*': 'HE_BLK_end'}, 'next_block': {'(*block_p)': 'HE_TCB_next_block', '*': 'HE_BLK_next_block'}}, calls={'gather_protected_eras': 'HE_DYN_GATHER_BLK'},
          must_fire={'subst:base_gather': 1, 'subst:block_ref': 3, 'call:gather_protected_eras': 1, 'method:next_block': 1}),
     dict(id='he_dyn_tcb_gather', file=HEI, sig=r'void gather_protected_eras\(std::vector<era_t>& protected_eras\) const', which=1,
-         c_sig='static void he_dyn_tcb_gather(const struct tcb* self, struct vec* protected_eras)', calls={'gather_protected_eras': 'HE_DYN_GATHER_TCB'},
+         c_sig='static void he_dyn_tcb_gather(const struct tcb* self, struct vec* protected_eras)', subst=[(r'base::gather_protected_eras\(', 'he_gather_range(', 'base_gather')],
+         methods={'begin': 'HE_TCB_begin', 'end': 'HE_TCB_end'}, calls={'gather_protected_eras': 'HE_DYN_GATHER_TCB'},
          must_fire={'call:gather_protected_eras': 1}),
   ],
   runs=[
@@ -267,6 +269,20 @@ UNIT = dict(
     dict(id='he_gather', entry='h_gather', defs=dict(XV_HE=1, XV_E=3, XV_K=3), unwindset=['he_gather_range.0:5'], cls='shape-complete'),
     dict(id='hp_gather_5', entry='h_gather', tiers=['thorough'], defs=dict(XV_E=3, XV_K=5), unwindset=['hp_gather_range.0:7'], cls='shape-complete'),
     dict(id='he_gather_5', entry='h_gather', tiers=['thorough'], defs=dict(XV_HE=1, XV_E=3, XV_K=5), unwindset=['he_gather_range.0:7'], cls='shape-complete'),
+    dict(id='hp_gather_dyn', entry='h_gather_dyn', defs=dict(XV_DYNAMIC=1, XV_E=2, XV_K=2), unwindset=['hp_gather_range.0:4'], unwind=12, cls='shape-complete',
+         note='dynamic strategy: in-object array of 2 slots + 0..2 chained blocks of 1..2 slots, arbitrary contents, vector prefix 0..2; both instantiations of the gather template'),
+    dict(id='hp_gather_dyn_k1', entry='h_gather_dyn', defs=dict(XV_DYNAMIC=1, XV_E=2, XV_K=1), unwindset=['hp_gather_range.0:4'], unwind=12, cls='shape-complete'),
+    dict(id='he_gather_dyn', entry='h_gather_dyn', defs=dict(XV_HE=1, XV_DYNAMIC=1, XV_E=2, XV_K=2), unwindset=['he_gather_range.0:4'], unwind=12, cls='shape-complete'),
+    dict(id='he_gather_dyn_k1', entry='h_gather_dyn', defs=dict(XV_HE=1, XV_DYNAMIC=1, XV_E=2, XV_K=1), unwindset=['he_gather_range.0:4'], unwind=12, cls='shape-complete'),
+    dict(id='hp_gather_dyn_3', entry='h_gather_dyn', tiers=['thorough'], defs=dict(XV_DYNAMIC=1, XV_E=2, XV_K=2, XV_BS=3), unwindset=['hp_gather_range.0:5'], unwind=12, cls='shape-complete', note='blocks of 1..3 slots'),
+    dict(id='he_gather_dyn_3', entry='h_gather_dyn', tiers=['thorough'], defs=dict(XV_HE=1, XV_DYNAMIC=1, XV_E=2, XV_K=2, XV_BS=3), unwindset=['he_gather_range.0:5'], unwind=12, cls='shape-complete'),
+    # scan with the dynamic strategy, everything real in one piece (entry 0 owns 0..2 chained blocks)
+    dict(id='hp_scan_dyn', entry='h_scan', tiers=['quick'], defs=dict(XV_DYNAMIC=1, XV_BS=1, XV_E=2, XV_K=1, XV_L=1, XV_LA=1), unwindset=unw(2, 2, 1, 1, 'hp'), unwind=12, cls='shape-complete', timeout=900,
+         note='2 entries with 1 in-object slot; entry 0 has 0..2 chained dynamic blocks of 1 slot; 0..1 retired + 0..1 abandoned nodes'),
+    dict(id='hp_scan_dyn_l2', entry='h_scan', tiers=['thorough'], defs=dict(XV_DYNAMIC=1, XV_BS=1, XV_E=2, XV_K=1, XV_L=2, XV_LA=1), unwindset=unw(2, 2, 2, 1, 'hp'), unwind=12, cls='shape-complete', timeout=3000),
+    dict(id='hp_scan_dyn_2', entry='h_scan', tiers=['thorough'], defs=dict(XV_DYNAMIC=1, XV_BS=2, XV_E=2, XV_K=1, XV_L=2, XV_LA=1), unwindset=unw(2, 2, 2, 1, 'hp'), unwind=12, cls='shape-complete', timeout=3000,
+         note='blocks of 1..2 slots'),
+    dict(id='he_scan_dyn', entry='h_scan', tiers=['thorough'], defs=dict(XV_HE=1, XV_DYNAMIC=1, XV_BS=1, XV_E=2, XV_K=1, XV_L=1, XV_LA=1), unwindset=unw(2, 2, 1, 1, 'he'), unwind=12, cls='shape-complete', timeout=3000),
     dict(id='hp_reclaim_5', entry='h_reclaim', tiers=['thorough'], defs=dict(XV_E=3, XV_K=3, XV_L=2, XV_LA=5), unwindset=['hp_reclaim_nodes.0:7'], cls='shape-complete', timeout=3000),
     dict(id='he_reclaim_5', entry='h_reclaim', tiers=['thorough'], defs=dict(XV_HE=1, XV_E=3, XV_K=3, XV_L=2, XV_LA=5), unwindset=['he_reclaim_nodes.0:7'], cls='shape-complete', timeout=3000),
     # scan / ~thread_data: real text of scan, for_each loop, iterator, is_active, gather, try_get_*, adopt/abandon, release_entry, abandon; reclaim_nodes by contract
@@ -297,6 +313,8 @@ UNIT = dict(
     'hpscan.adopt_before_gather': dict(deciding=True, text='scan: the abandoned nodes are taken over (one exchange) before the first slot is read, so every node that may be deleted was retired before the gathering started'),
     'hpscan.gather.all_slots': dict(deciding=True, text='scan reads the state of every entry of the list (head loaded with acquire) and, for every entry seen active, every one of its K slots'),
     'hpscan.gather.exact': dict(deciding=True, text='gather_protected_pointers / gather_protected_eras of a control block appends exactly the non-link slot words (HE: the eras they encode), in slot order, reading each slot once and leaving the rest of the vector alone'),
+    'hpscan.gather.dynamic_all_blocks': dict(deciding=True, text='HP dynamic strategy: gather_protected_pointers reads every slot of the in-object array AND of every chained dynamic block exactly once (hp_block loaded with acquire, the walk follows next until null, slots beyond a block\'s size and unchained blocks are not read), appends the non-link words in that order, leaves the vector prefix alone and writes nothing'),
+    'hescan.gather.dynamic_all_blocks': dict(deciding=True, text='HE dynamic strategy: the same for gather_protected_eras (the eras encoded in the non-link words)'),
     'hpscan.search_sorted': dict(deciding=True, text='std::binary_search / std::lower_bound are only called on a sorted range (their precondition): the vector is sorted (HE: and truncated after unique) between gathering and reclaim_nodes'),
     'hpscan.spares_protected': dict(deciding=True, text='HP: delete_self(n) only if n is not among the non-link slot words read from entries that were active when looked at; a node whose address is in such a slot stays in the retire list exactly once (C01 reclaim side)'),
     'hescan.spares_protected_interval': dict(deciding=True, text='HE: delete_self(n) only if no era read from a slot of an entry seen active lies in [construction_era, retirement_era]; otherwise the node stays in the retire list exactly once (C01 reclaim side)'),
@@ -312,5 +330,6 @@ UNIT = dict(
            'hescan.spares_protected_interval': dict(src='replay_scan.cpp', cxxflags=['-DREPLAY_HE']), 'hescan.conserve': dict(src='replay_scan.cpp', cxxflags=['-DREPLAY_HE'])},
   canaries=['gather.value', 'gather.link', 'gather.full', 'reclaim.spared', 'reclaim.deleted', 'reclaim.full', 'reclaim.empty_vector',
             'scan.own_spared', 'scan.adopted_spared', 'scan.own_deleted', 'scan.adopted_deleted', 'scan.inactive_entry_ignored', 'scan.outside', 'scan.full_all_spared', 'scan.no_entries',
-            'scan_int.deleted', 'scan_int.spared', 'dtor.handed_over', 'dtor.deleted', 'dtor.nothing_retired', 'dtor.released', 'dtor.no_record', 'trigger.scan', 'trigger.no_scan', 'balance.grown', 'balance.plain'],
+            'scan_int.deleted', 'scan_int.spared', 'dtor.handed_over', 'dtor.deleted', 'dtor.nothing_retired', 'dtor.released', 'dtor.no_record', 'trigger.scan', 'trigger.no_scan', 'balance.grown', 'balance.plain', 'gather_dyn.no_block', 'gather_dyn.two_blocks_all_values', 'gather_dyn.one_small_block',
+            'scan.protected_by_dynamic_block', 'scan.protected_by_second_block'],
 )
